@@ -130,6 +130,26 @@ def identity_programs():
         ["try", [["throw", var("o")]], [["E1", "e", [same("e", "o", "e=o;", "e!=o;"), same("e", "p", "e=p;", "e!=p;"),
                                                      ["echo", ["class", var("e")]], ["echo", ["msg", var("e")]]]]], None],
         same("o", "p", "o=p", "o!=p")]))
+    # the catch variable IS the thrown object: property read and write (seen through the other name), a user method,
+    # instanceof (own class, ancestor, interface of an ancestor, unrelated), == with the object, Throwable API still there
+    inst = lambda x, T: ["ifinst", x, T, [echo("is-%s;" % T)], [echo("not-%s;" % T)]]
+    out.append(dict(base, main=[
+        ["expr", ["assign", "o", ["new", "E2", lit("m")]]],
+        ["try", [["throw", var("o")]],
+         [["E1", "e", [tag("n=", ["prop", var("e")]), ["expr", ["setprop", var("e"), ["bin", "Add", ["prop", var("e")], lit(4)]]],
+                       tag(";o.n=", ["prop", var("o")]), tag(";", ["hi", var("e")]), tag(";", ["hi", var("o")]), echo(";"),
+                       inst("e", "E2"), inst("e", "E1"), inst("e", "Exception"), inst("e", "Throwable"), inst("e", "I1"), inst("e", "E4"),
+                       ["if", ["bin", "Eq", var("e"), var("o")], [echo("eq;")], [], [echo("ne;")]],
+                       ["expr", ["assign", "x", ["setprop", var("e"), lit(9)]]], tag("x=", var("x")), tag(";o.n=", ["prop", var("o")]),
+                       tag(";msg=", ["msg", var("e")])]]], None],
+        ["expr", ["assign", "q", ["new", "E3", lit("z")]]], inst("q", "I1"), inst("q", "E1"),
+        ["expr", ["setprop", var("q"), lit(7)]], tag("q.n=", ["prop", var("q")]), tag(";o.n=", ["prop", var("o")])]))
+    # property writes in a handler survive rethrow and are seen by the outer handler and after the try
+    out.append(dict(base, main=[
+        ["expr", ["assign", "o", ["new", "E3", lit("w")]]],
+        ["try", [["try", [["throw", var("o")]], [["I1", "e", [["expr", ["setprop", var("e"), lit(2)]], ["throw", var("e")]]]], [echo("f1;")]]],
+         [["E3", "e2", [tag("n=", ["prop", var("e2")]), ["expr", ["setprop", var("e2"), ["bin", "Mul", ["prop", var("e2")], lit(5)]]]]]], [echo(";f2;")]],
+        tag("o.n=", ["prop", var("o")]), tag(";", ["hi", var("o")])]))
     # rethrow keeps class, message and identity through an outer finally
     out.append(dict(base, main=[
         ["expr", ["assign", "o", ["new", "E2", lit("re")]]],
@@ -308,6 +328,15 @@ class Gen5(G.Gen):
             cb = [echo("<%s>" % ty)]
             if user:
                 cb.append(["echo", ["bin", "Concat", ["class", var("e")], ["msg", var("e")]]])
+                w = r.random()
+                if w < 0.25:
+                    cb.append(["expr", ["setprop", var("e"), ["bin", "Add", ["prop", var("e")], lit(r.randint(1, 3))]]])
+                    cb.append(tag("n", ["prop", var("e")]))
+                elif w < 0.4:
+                    cb.append(tag("", ["hi", var("e")]))
+                elif w < 0.6:
+                    T = r.choice([c[0] for c in self.classes] + [i[0] for i in self.ifaces] + ["Exception"])
+                    cb.append(["ifinst", "e", T, [echo("+" + T)], [echo("-" + T)]])
             cb += self.block(sc, d + 1, r.randint(0, 2))
             c = r.random()
             if c < 0.15:
